@@ -694,6 +694,54 @@ pub mod verif_hooks {
         }
     }
 
+    /// One call of `CompressFromHash::extend_kmer`: the whole walk from `kmer` in direction `dir`
+    /// over a caller-supplied table and availability set. Returns the end extensions and the
+    /// availability set after the walk; the walked k-mers are left in `path`.
+    pub fn extend_kmer_walk<K: Kmer, D: Clone + Debug, S: CompressionSpec<D>>(
+        stranded: bool,
+        spec: &S,
+        index: &BoomHashMap2<K, Exts, D>,
+        available_kmers: BitSet,
+        kmer: K,
+        dir: Dir,
+        path: &mut Vec<(K, Dir)>,
+    ) -> (Exts, BitSet) {
+        let mut comp = CompressFromHash {
+            stranded,
+            spec,
+            k: PhantomData,
+            d: PhantomData,
+            available_kmers,
+            index,
+        };
+        let e = comp.extend_kmer(kmer, dir, path);
+        (e, comp.available_kmers)
+    }
+
+    /// One call of `CompressFromHash::build_node` from table row `seed_id`, with caller-supplied
+    /// scratch buffers. Returns the node's extensions, its folded payload and the availability
+    /// set afterwards; the node sequence is left in `edge_seq`.
+    pub fn build_node_from<K: Kmer, D: Clone + Debug, S: CompressionSpec<D>>(
+        stranded: bool,
+        spec: &S,
+        index: &BoomHashMap2<K, Exts, D>,
+        available_kmers: BitSet,
+        seed_id: usize,
+        path: &mut Vec<(K, Dir)>,
+        edge_seq: &mut VecDeque<u8>,
+    ) -> (Exts, D, BitSet) {
+        let mut comp = CompressFromHash {
+            stranded,
+            spec,
+            k: PhantomData,
+            d: PhantomData,
+            available_kmers,
+            index,
+        };
+        let (e, d) = comp.build_node(seed_id, path, edge_seq);
+        (e, d, comp.available_kmers)
+    }
+
     /// One call of `CompressFromGraph::try_extend_node`.
     pub fn try_extend_node_step<K, D, S>(
         stranded: bool,
